@@ -24,6 +24,19 @@ fn main() {
     quiet_panics();
     let thorough = tier == "thorough";
     let mut s = Session::new(&prop, &tier, seed);
+    if prop == "dump-tables" {
+        // Bit-pattern dump of the in-memory float tables of the built code (translator input).
+        #[cfg(feature = "c18")]
+        {
+            c18::dump_tables(&out);
+            return;
+        }
+        #[allow(unreachable_code)]
+        {
+            eprintln!("dump-tables needs feature c18");
+            std::process::exit(2);
+        }
+    }
     if prop == "replay" {
         for line in std::fs::read_to_string(&file).expect("replay file").lines() {
             if line.trim().is_empty() || line.starts_with('#') { continue; }
